@@ -212,6 +212,14 @@ func symbolsOf(q pattern.Pattern) []pattern.IndexSymbol {
 	return append(out, q.RootCallSymbols...)
 }
 
+var patternKinds = func() map[string]bool {
+	m := map[string]bool{}
+	for _, k := range []string{"Ellipsis", "RangeStmt", "AssignStmt", "IndexExpr", "IndexListExpr", "Ident", "ValueSpec", "GenDecl", "BinaryExpr", "ForStmt", "ArrayType", "DeferStmt", "MapType", "ReturnStmt", "SliceExpr", "StarExpr", "UnaryExpr", "SendStmt", "SelectStmt", "ImportSpec", "IfStmt", "GoStmt", "Field", "SelectorExpr", "StructType", "KeyValueExpr", "FuncType", "FuncLit", "FuncDecl", "ChanType", "CallExpr", "CaseClause", "CommClause", "CompositeLit", "EmptyStmt", "SwitchStmt", "TypeSwitchStmt", "TypeAssertExpr", "TypeSpec", "InterfaceType", "BranchStmt", "IncDecStmt", "BasicLit"} {
+		m[k] = true
+	}
+	return m
+}()
+
 type patStats struct {
 	Pairs, Skipped, PairsWithMatch, Matches, BrutePanics int
 	PrunedBySymbols, ByCallSites, ByEntryNodes           int
@@ -227,15 +235,27 @@ var PatMon = &analysis.Analyzer{
 			return nil, nil
 		}
 		var st patStats
-		var nodes []ast.Node
+		// "Every syntax node": every node of a kind the pattern language can
+		// denote (a pattern node of that name exists), plus the four wrapper
+		// kinds the matcher unnests by design. Block statements and field lists
+		// stand for their lists and are tried for patterns that can start there.
+		var nodes, listNodes []ast.Node
 		for _, f := range pass.Files {
 			ast.Inspect(f, func(n ast.Node) bool {
 				if n != nil {
 					switch n.(type) {
 					case *ast.Comment, *ast.CommentGroup:
 						return false
+					case *ast.BlockStmt, *ast.FieldList:
+						listNodes = append(listNodes, n)
+						return true
+					case *ast.ParenExpr, *ast.ExprStmt, *ast.DeclStmt, *ast.LabeledStmt:
+						nodes = append(nodes, n)
+						return true
 					}
-					nodes = append(nodes, n)
+					if patternKinds[strings.TrimPrefix(fmt.Sprintf("%T", n), "*ast.")] {
+						nodes = append(nodes, n)
+					}
 				}
 				return true
 			})
@@ -255,7 +275,14 @@ var PatMon = &analysis.Analyzer{
 			}
 			st.Pairs++
 			want := map[string]bool{}
-			for _, n := range nodes {
+			tryNodes := nodes
+			for _, en := range q.EntryNodes {
+				switch en.(type) {
+				case *ast.BlockStmt, *ast.FieldList:
+					tryNodes = append(append([]ast.Node{}, nodes...), listNodes...)
+				}
+			}
+			for _, n := range tryNodes {
 				func() {
 					defer func() {
 						if recover() != nil {
